@@ -134,7 +134,8 @@ def load_corpus():
 
 def run(ctx, res, cases=None):
     exe = ctx.path('C41')
-    ok, log = pv.cc_harness(os.path.join(pv.ROOT, 'harness', 'C41.c'), exe, ctx.build, sanitize=True)
+    ok, log = pv.cc_harness(os.path.join(pv.ROOT, 'harness', 'C41.c'), exe, ctx.build, sanitize=True,
+                            extra=[os.path.join(pv.REPO, 'parsec', 'class', 'info.c')])
     if not ok:
         res.infra_errors.append('harness compile failed: ' + log[-1500:]); return
     env = {'ASAN_OPTIONS': 'detect_leaks=0'}
@@ -166,10 +167,19 @@ def run(ctx, res, cases=None):
         if len(res.violations) + len(res.disagreements) >= 5:
             break
     res.traces_validated = len(results)
+    # concurrent clause ("under concurrent use and registry growth"): free-running search, not a theorem.
+    # info.c is compiled into the harness with ASan so that a racy access to a reallocated array is reported.
+    rc, out, err = pv.sh([exe, 'stress', '4', '6' if ctx.quick else '150', '200'], env=env, timeout=900)
+    _, _, st2, viols = pv.parse_transcript(out)
+    for v in viols:
+        res.violations.append({'key': 'concurrent:' + v[:60], 'what': v, 'case': 'C41 stress 4 threads'})
+    if rc != 0:
+        res.violations.append({'key': 'concurrent:crash', 'what': 'concurrent get/set vs registry growth: sanitizer abort / crash (rc=%d): %s' % (rc, err[-700:]), 'case': 'C41 stress 4 threads'})
+    stats = dict(stats or {}, **st2)
     res.rule = ('corpus cases first, then random histories (length 4..60 quick / 4..160 thorough) over 12 names, ids up to max_id(+1), 1..n arrays, values 0..250, executed on the real API under ASan+UBSan; '
                 'distinct = distinct op sequence; non-trivial = at least one call returned a non-default value')
     res.samples = [{'ops': r['ops'][:12], 'impl': r['impl'][:12]} for r in results[len(corpus):len(corpus) + 2]] + [{'ops': r['ops'], 'impl': r['impl']} for r in results[:1]]
-    res.extra['input_distribution'] = {'op_histogram': hist, 'corpus_cases': len(corpus), 'rejected_calls': sum(r['impl'].count('rejected') for r in results)}
+    res.extra['input_distribution'] = {'op_histogram': hist, 'corpus_cases': len(corpus), 'rejected_calls': sum(r['impl'].count('rejected') for r in results), 'stress': stats}
 
 
 def replay(ctx, res, data):
